@@ -1,6 +1,7 @@
 package main
 
 import (
+	"sync/atomic"
 	"golang.org/x/tools/go/ssa"
 	"context"
 	"go/token"
@@ -399,7 +400,32 @@ func smtTextPC(o *Obligation, negate bool, pc []string) string {
 	return b.String()
 }
 
+var coveredMu sync.Mutex
+var coveredNames = map[string]bool{}
+
 func solveOne(o *Obligation, wd *workDir, timeoutS int, agree bool) {
+	if o.Kind == "cover" {
+		// reachability of a hypothesis: one satisfiable instance is enough, and a solver that cannot
+		// find a model of a nonlinear path condition in a few seconds will not find one in 90
+		coveredMu.Lock()
+		done := coveredNames[o.Name]
+		coveredMu.Unlock()
+		if done {
+			o.Result = SolverResult{Status: "sat", Solver: "covered-by-another-path"}
+			return
+		}
+		f := wd.file(o.Name)
+		os.WriteFile(f, []byte(smtText(o, true)), 0o644)
+		o.File = f
+		best, _ := solvePortfolio(f, 4, false)
+		o.Result = best
+		if best.Status == "sat" {
+			coveredMu.Lock()
+			coveredNames[o.Name] = true
+			coveredMu.Unlock()
+		}
+		return
+	}
 	f := wd.file(o.Name)
 	os.WriteFile(f, []byte(smtText(o, true)), 0o644)
 	o.File = f
@@ -480,7 +506,14 @@ func solveOne(o *Obligation, wd *workDir, timeoutS int, agree bool) {
 // solveAll discharges the obligations. Obligations are grouped by symbolic path: when a path
 // carries several non-trivial obligations its path condition is checked first, and an
 // infeasible path discharges all of them at once (pc unsat implies pc and not goal unsat).
+// failureBudget: after this many failing path instances the remaining obligations of the run are
+// skipped (a violated tree is reported in bounded time; the unchanged tree never gets here).
+var failureBudget int32 = 12
+var failedInstances, skippedInstances int32
+
 func solveAll(pr *PropRun, wd *workDir, timeoutS int, agree bool) {
+	atomic.StoreInt32(&failedInstances, 0)
+	atomic.StoreInt32(&skippedInstances, 0)
 	type key struct {
 		fn   string
 		path int
@@ -531,7 +564,16 @@ func solveAll(pr *PropRun, wd *workDir, timeoutS int, agree bool) {
 					defer iw.Done()
 					sem <- struct{}{}
 					defer func() { <-sem }()
+					if atomic.LoadInt32(&failedInstances) >= failureBudget {
+						// enough failures to report: do not spend minutes of solver time on the rest
+						o.Result = SolverResult{Status: "skipped", Solver: "skipped-after-first-failures"}
+						atomic.AddInt32(&skippedInstances, 1)
+						return
+					}
 					solveOne(o, wd, timeoutS, agree)
+					if o.Result.Status != "unsat" && o.Kind != "vacuity" && o.Kind != "cover" && o.Kind != "finding" && o.Kind != "conform" && o.Tainted == "" && o.Undecidable == "" {
+						atomic.AddInt32(&failedInstances, 1)
+					}
 				}(o)
 			}
 			iw.Wait()
@@ -620,7 +662,7 @@ func aggregate(pr *PropRun) []*NamedResult {
 			continue
 		}
 		switch o.Result.Status {
-		case "unsat":
+		case "unsat", "skipped":
 		case "sat", "disagree":
 			if o.Tainted != "" {
 				// it fails only on a path where a callee's clause could not be assumed
